@@ -184,6 +184,17 @@ def extract(h):
         out.append(f"/-- {rel} `{const}`: {desc} -/")
         out.append(f"def specs_{name} : List Row := [\n" + ",\n".join(lines) + "]")
         out.append(f"-- TABLE {name} {','.join(toks) if toks else '_'}\n")
+    # static audit: which built-ins read `OptionOccurrence::spelling` (the only way a built-in can tell
+    # two spellings of one invocation apart)
+    readers = []
+    for rel in sorted(files):
+        if rel.endswith("common/syntax.rs"):
+            continue
+        src = non_test(strip_comments(h.read(rel)))
+        if re.search(r"\.spelling\b|\bis_grouped\s*\(", src):
+            readers.append(rel[len(SRC) + 1:])
+    out.append("/-- files of yash-builtin (outside common/syntax.rs, outside tests) that read `OptionOccurrence::spelling` -/")
+    out.append("def spellingReaders : List String := [" + ", ".join(h.lean_str(r) for r in readers) + "]\n")
     out.append("def all : List (String × List Row) := [\n"
                + ",\n".join(f"  ({h.lean_str(n)}, specs_{n})" for n, _, _, _ in tables) + "]\n")
     h.write("ArgSpecs", "\n".join(out))
